@@ -38,7 +38,7 @@ type logSpec struct {
 	steps      []step
 	t0         time.Time // logical clock start (entries without their own time continue from the previous entry)
 	finalize   bool      // FinalizeChain at the end (deferred call in main); false = process killed
-	concurrent int  // >0: entries are logged by this many goroutines (order then decided by logrus' lock)
+	concurrent int       // >0: entries are logged by this many goroutines (order then decided by logrus' lock)
 }
 
 // lineMeta says how a produced line came to be (by construction, in production order).
